@@ -44,8 +44,8 @@ class Script:
         self.calls = []
 
     def _xi(self, shape):
-        xi = np.round(self.rs.randn(*shape) * 8.0) / 8.0
-        xi[xi == 0] = 0.375
+        xi = np.array(np.round(self.rs.randn(*shape) * 8.0) / 8.0, dtype=float)
+        xi = np.where(xi == 0, 0.375, xi)
         return xi
 
     def randn(self, *shape):
@@ -351,6 +351,11 @@ def case_deconv1d(ctx, cuqi, T, B1, B2, cfg, sid):
         ctx.case("deconv1d-nan-phantom", desc, nontrivial=False)
         ctx.note(f"phantom leaf has non-finite entries (degenerate size), skipped: dim={dim} phantom={ph}")
         return
+    if P is None and psf[0] == "name" and psf[1].lower() == "defocus" and psf[2] == 0:
+        ctx.case("deconv1d-psf-refusal", desc, nontrivial=False)
+        ctx.fail("Deconvolution1D:PSF:defocus:param0", desc, "the delta PSF (identity blur) announced in _DefocusPSF_1D", err,
+                 "PSF='Defocus' with PSF_param=0 raises instead of giving the delta PSF")
+        return
     if P is None or x_leaf is None or len(x_leaf) != dim:
         ctx.case("deconv1d-refusal", desc, nontrivial=False)
         if tp is not None:
@@ -577,7 +582,16 @@ def case_deconv2d(ctx, cuqi, T, B1, B2, cfg, sid):
         else:
             f = {"gauss": lambda s, p: T._GaussPSF(np.array([s, s]), p), "moffat": lambda s, p: T._MoffatPSF(np.array([s, s]), p, 1),
                  "defocus": lambda s, p: T._DefocusPSF(np.array([s, s]), p)}[psf[1].lower()]
-            P = np.asarray(f(psf[3], psf[2])[0], dtype=float)
+            try:
+                P = np.asarray(f(psf[3], psf[2])[0], dtype=float)
+            except Exception as e:
+                ctx.case("deconv2d-psf-refusal", desc, nontrivial=False)
+                if psf[1].lower() == "defocus" and psf[2] == 0:
+                    ctx.fail("Deconvolution2D:PSF:defocus:param0", desc, "the delta PSF (identity blur) announced in _DefocusPSF", f"{type(e).__name__}: {str(e)[:60]}",
+                             "PSF='Defocus' with PSF_param=0 raises instead of giving the delta PSF")
+                else:
+                    ctx.note(f"2-D PSF leaf could not be formed at {desc}: {repr(e)[:80]}")
+                return
         x_leaf = np.array(ph[1], dtype=float) if ph[0] == "arr" else np.asarray(getattr(cuqi.data, ph[1])(size=dim), dtype=float).flatten()
     cls = sym_class(P)
     n2 = dim * dim
@@ -1002,24 +1016,50 @@ def case_abel(ctx, cuqi, B1, B2, cfg, sid):
 def case_wang(ctx, cuqi, B1, B2, cfg, sid):
     from cuqi.testproblem import WangCubic
     from cuqi.distribution import Gaussian
-    nstd, data, pk = cfg["noise_std"], cfg["data"], cfg["prior"]
-    desc = {"problem": "WangCubic", **cfg}
+    nstd, dopt, pk = cfg["noise_std"], cfg["data"], cfg["prior"]
+    # data option: None | ("int", v) | ("float", v) | ("arr", [v]) | a plain number (legacy form of the generator)
+    if dopt is not None and not isinstance(dopt, tuple):
+        dopt = ("float", float(dopt)) if isinstance(dopt, float) else ("int", int(dopt))
+    desc = {"problem": "WangCubic", "noise_std": nstd, "data": (None if dopt is None else list(dopt)), "prior": pk}
     prior = {"none": None, "gauss": Gaussian(np.zeros(2), 4.0, name="x"), "gauss-q": Gaussian(np.array([0.5, -1.0]), 0.25, name="q")}[pk]
     kw = {"prior": prior}
     if nstd is not None:
         kw["noise_std"] = nstd
-    if data is not None:
-        kw["data"] = data
+    if dopt is not None:
+        kw["data"] = {"int": int, "float": float, "arr": (lambda v: np.array(v, dtype=float))}[dopt[0]](dopt[1])
     with scripted(sid) as S, quiet():
         tp = WangCubic(**kw)
-    nstd_eff = 1 if nstd is None else nstd
-    data_eff = 1 if data is None else data
+    dval = None if dopt is None else (float(dopt[1][0]) if dopt[0] == "arr" else float(dopt[1]))
     rs = np.random.RandomState(sid + 5)
     pts = [np.round(rs.randn(2) * 4) / 4.0 for _ in range(3)] + [np.array([1.0, 0.0]), np.array([0.0, 0.0])]
-    lines = [f"wang {q(x[0])} {q(x[1])}" for x in pts]
+    lines = [f"wangopt {'none' if dval is None else q(dval)} {'none' if nstd is None else q(nstd)}"] + [f"wang {q(x[0])} {q(x[1])}" for x in pts]
 
     def cb(outs):
-        for x, out in zip(pts, outs):
+        ro = kv(outs[0])
+        data_eff, nstd_eff = float(pq(ro["data"])), float(pq(ro["std"]))      # what the stated options mean (model)
+        ctx.case("wangcubic-options", desc)
+        # data given => used verbatim (also 0); the same object/value from every accessor
+        with quiet():
+            m_, d_, info_ = tp.get_components()
+        vals = {"tp.data": tp.data, "likelihood.data": tp.likelihood.data, "get_components": d_, "posterior.data": tp.posterior.data}
+        badv = {k: repr(v)[:40] for k, v in vals.items() if np.size(v) != 1 or not close(float(np.asarray(v).ravel()[0]), data_eff, 0)}
+        if badv:
+            ctx.disagree("tie:WangCubic:data", desc, data_eff, str(badv), "data handed out vs stated data option")
+            ctx.fail("tie:WangCubic:data", desc, data_eff, str(badv), "data are not the stated data (given data must be used verbatim, also 0)")
+            ctx.fail("WangCubic:data", desc, data_eff, str(badv), "data are not the stated data (given data must be used verbatim, also 0)")
+        if S.calls:
+            ctx.fail("WangCubic:data", desc, "no random draw (data are given)", len(S.calls), "WangCubic draws random numbers")
+        want = f"Noise type: Additive Gaussian with std: {1 if nstd is None else nstd}"
+        if tp.infoString != want:
+            ctx.fail("WangCubic:infoString", desc, want, tp.infoString, "infoString does not state the noise level used")
+        cov_impl = np.asarray(tp.likelihood.distribution.cov, dtype=float).ravel()
+        if cov_impl.size != 1 or not close(cov_impl[0], nstd_eff ** 2, 1e-14):
+            ctx.disagree("tie:WangCubic:likelihood:cov", desc, nstd_eff ** 2, list(cov_impl))
+            ctx.fail("tie:WangCubic:likelihood:cov", desc, nstd_eff ** 2, list(cov_impl), "likelihood variance is not noise_std^2")
+            ctx.fail("WangCubic:likelihood:cov", desc, nstd_eff ** 2, list(cov_impl), "likelihood variance is not noise_std^2")
+        if tp.exactSolution is not None or tp.exactData is not None:
+            ctx.fail("WangCubic:exact", desc, "None", "set", "WangCubic has no exact solution / data")
+        for x, out in zip(pts, outs[1:]):
             d = {**desc, "x": [float(x[0]), float(x[1])]}
             ctx.case("wangcubic", d)
             r = kv(out)
@@ -1030,33 +1070,27 @@ def case_wang(ctx, cuqi, B1, B2, cfg, sid):
             doc_f = 10 * x[1] - 10 * x[0] ** 3 + 5 * x[0] ** 2 + 6 * x[0]
             if not close(fi, f, 1e-12):
                 ctx.disagree("tie:WangCubic:forward", d, f, fi)
-                ctx.fail("tie:WangCubic:forward", d, doc_f, fi, "forward is not the documented cubic") if not close(fi, doc_f, 1e-12) else None
+                if not close(fi, doc_f, 1e-12):
+                    ctx.fail("tie:WangCubic:forward", d, doc_f, fi, "forward is not the documented cubic")
             if not close(fi, doc_f, 1e-12):
                 ctx.fail("WangCubic:operator:wrong", d, doc_f, fi, "forward is not the cubic 10 x1 - 10 x0^3 + 5 x0^2 + 6 x0")
             if not vclose(gi, j, 1e-12):
                 ctx.disagree("tie:WangCubic:jacobian", d, j, list(gi))
-                ctx.fail("tie:WangCubic:jacobian", d, dj, list(gi), "gradient is not the derivative of the cubic") if not vclose(gi, dj, 1e-12) else None
+                if not vclose(gi, dj, 1e-12):
+                    ctx.fail("tie:WangCubic:jacobian", d, dj, list(gi), "gradient is not the derivative of the cubic")
             if not vclose(gi, dj, 1e-12):
                 ctx.fail("WangCubic:jacobian", d, dj, list(gi), "model gradient is not the derivative of the forward cubic")
-            # log posterior: Gaussian loglik with the stated std + log prior
-            with quiet():
-                got = float(np.asarray(tp.posterior.logd(x)).ravel()[0])
-                lp = float(np.asarray(tp.prior.logd(x)).ravel()[0])
-            ref = -0.5 * ((data_eff - f) ** 2 / nstd_eff ** 2 + math.log(nstd_eff ** 2) + LOG2PI) + lp
-            if not close(got, ref, 1e-9):
-                ctx.disagree("tie:WangCubic:logd", d, ref, got)
-                ctx.fail("tie:WangCubic:logd", d, ref, got, "posterior.logd is not Gaussian loglik(noise_std) + logprior")
-                ctx.fail("WangCubic:logd", d, ref, got, "posterior.logd is not Gaussian loglik(noise_std) + logprior")
-        if S.calls:
-            ctx.fail("WangCubic:data", desc, "no random draw (data are given)", len(S.calls), "WangCubic draws random numbers")
-        if not close(float(np.asarray(tp.data).ravel()[0]), data_eff, 0):
-            ctx.fail("WangCubic:data", desc, data_eff, str(tp.data), "data are not the stated data")
-        want = f"Noise type: Additive Gaussian with std: {nstd_eff}"
-        if tp.infoString != want:
-            ctx.fail("WangCubic:infoString", desc, want, tp.infoString, "infoString does not state the noise level used")
-        cov_impl = np.asarray(tp.likelihood.distribution.cov, dtype=float).ravel()
-        if cov_impl.size != 1 or not close(cov_impl[0], nstd_eff ** 2, 1e-14):
-            ctx.fail("WangCubic:likelihood:cov", desc, nstd_eff ** 2, list(cov_impl), "likelihood variance is not noise_std^2")
+            # log posterior: Gaussian loglik with the stated data and std + log prior
+            if nstd_eff > 0:
+                with quiet():
+                    got = float(np.asarray(tp.posterior.logd(x)).ravel()[0])
+                    lp = float(np.asarray(tp.prior.logd(x)).ravel()[0])
+                    ll = float(np.asarray(tp.likelihood.logd(x)).ravel()[0])
+                ref = -0.5 * ((data_eff - f) ** 2 / nstd_eff ** 2 + math.log(nstd_eff ** 2) + LOG2PI) + lp
+                if not close(got, ref, 1e-9) or not close(got, ll + lp, 1e-9):
+                    ctx.disagree("tie:WangCubic:logd", d, ref, got)
+                    ctx.fail("tie:WangCubic:logd", d, ref, got, "posterior.logd is not Gaussian loglik(stated data, noise_std) + logprior")
+                    ctx.fail("WangCubic:logd", d, ref, got, "posterior.logd is not Gaussian loglik(stated data, noise_std) + logprior")
         check_components(ctx, B2, "WangCubic", tp, desc)
 
     B1.add(lines, cb)
@@ -1111,11 +1145,55 @@ def run(ctx):
         case_deconv1d(ctx, cuqi, T, B1, B2, dict(phantom=("arr", [float(k % 4) for k in range(c["dim"])]), noise_type="gaussian", noise_std=0.25,
                                                 prior=("none", None), legacy=True, **c), nid())
 
+    # ---- boundary / falsy option values, every problem (fixed, every run): levels far from 1 and equal to 1 for both
+    #      noise types, tiny levels, minimal dims, PSF_size 1, PSF_param extremes, phantoms with zeros, explicit priors
+    from cuqi.distribution import Gaussian as _G
+    for ntype in ("gaussian", "scaledGaussian"):
+        for nstd in (1.0, 0.01, 4.0, 1e-6, 1):
+            ph = ("arr", [0.0, 1, 0, 3, -2, 5]) if ntype == "gaussian" else ("arr", [2.0, 1, 4, 3, -2, 5])
+            case_deconv1d(ctx, cuqi, T, B1, B2, dict(dim=6, psf=("arr", [1.0, 2.0, 1.0]), bc="periodic", phantom=ph, noise_type=ntype, noise_std=nstd,
+                                                    prior=("gauss", _G(np.ones(6), 4.0, name="x"))), nid())
+            case_deconv2d(ctx, cuqi, T, B1, B2, dict(dim=3, psf=("arr", [[0.0, 1, 0], [1, 2, 1], [0, 1, 0]]), bc="periodic",
+                                                    phantom=("arr", [0.0, 1, 2, 0, 4, 5, 1, 0, 3] if ntype == "gaussian" else [2.0, 1, 2, 3, 4, 5, 1, 6, 3]),
+                                                    noise_type=ntype, noise_std=nstd, prior=("gauss", _G(np.ones(9), 4.0, geometry=Image2D((3, 3)), name="x"))), nid())
+        case_deconv1d(ctx, cuqi, T, B1, B2, dict(dim=8, psf=("arr", [0.0, 2.0, 1.0, 0.0]), bc="periodic", phantom=("arr", [1.0] * 8), noise_type=ntype, noise_std=4.0,
+                                                prior=("none", None), legacy=False), nid())
+        case_deconv1d(ctx, cuqi, T, B1, B2, dict(dim=8, psf=("arr", [0.0, 0, 0, 1, 2, 1, 0, 0]), bc="periodic", phantom=("arr", [1.0, 2, 1, 3, 1, 2, 1, 1]), noise_type=ntype,
+                                                noise_std=4.0, prior=("none", None), legacy=True), nid())
+    for c in [dict(dim=1, psf=("arr", [2.0]), phantom=("arr", [3.0])), dict(dim=2, psf=("arr", [1.0, 2.0, 1.0]), phantom=("arr", [3.0, 0.0])),
+              dict(dim=6, psf=("name", "gauss", None, 1), phantom=("arr", [0.0] * 6)), dict(dim=6, psf=("name", "Moffat", 1e6, 3), phantom=("name", "pc", None)),
+              dict(dim=6, psf=("name", "gauss", 1e-3, 3), phantom=("name", "skyscraper", None)), dict(dim=6, psf=("name", "Defocus", 0, 3), phantom=("name", "sinc", None)),
+              dict(dim=6, psf=("name", "Defocus", 0.5, 3), phantom=("name", "sinc", None)), dict(dim=6, psf=("name", "gauss", None, 12), phantom=("name", "bumps", None))]:
+        case_deconv1d(ctx, cuqi, T, B1, B2, dict(bc="zero", noise_type="gaussian", noise_std=0.25, prior=("none", None), **c), nid())
+    for c in [dict(dim=1, psf=("arr", [[2.0]]), phantom=("arr", [3.0])), dict(dim=2, psf=("name", "Gauss", 2.56, 1), phantom=("arr", [1.0, 0, 0, 2])),
+              dict(dim=3, psf=("name", "Defocus", 0, 3), phantom=("arr", [1.0] * 9)), dict(dim=3, psf=("name", "Moffat", 1e6, 3), phantom=("arr", [0.0] * 9)),
+              dict(dim=3, psf=("name", "Gauss", 1e-3, 3), phantom=("arr", [1.0, 0, 2, 0, 3, 0, 4, 0, 5]))]:
+        case_deconv2d(ctx, cuqi, T, B1, B2, dict(bc="zero", noise_type="gaussian", noise_std=0.25, prior=("none", None), **c), nid())
+    for snr in (1, 1e6, 0.5):
+        case_poisson(ctx, cuqi, B1, B2, dict(dim=4, endpoint=2.0, field=("none",), SNR=snr, obs="none", source="const", exactSolution=[1.0, 1.0, 1.0, 1.0]), nid())
+        case_heat(ctx, cuqi, B1, B2, dict(dim=4, endpoint=0.5, max_time=0.05, field=("none",), SNR=snr, obs="none", exactSolution=[0.0, 1.0, 0.0, -1.0]), nid())
+        case_abel(ctx, cuqi, B1, B2, dict(dim=4, endpoint=rng.choice([0.5, 2.0]), field=("none",), SNR=snr), nid())
+    for c in [dict(dim=3, endpoint=1, field=("none",), SNR=200, obs="none", source="default", exactSolution=None),
+              dict(dim=2, endpoint=0.5, field=("none",), SNR=10, obs="none", source="lin", exactSolution=[2.0, 3.0])]:
+        case_poisson(ctx, cuqi, B1, B2, c, nid())
+    for c in [dict(dim=1, endpoint=1, max_time=0.2, field=("none",), SNR=200, obs="none", exactSolution=None),
+              dict(dim=2, endpoint=2.0, max_time=0.2, field=("none",), SNR=10, obs="none", exactSolution=[1.0, 0.0]),
+              dict(dim=4, endpoint=1, max_time=0, field=("none",), SNR=50, obs="none", exactSolution=None),
+              dict(dim=4, endpoint=1, max_time=1e-4, field=("none",), SNR=50, obs="none", exactSolution=[0.0, 2.0, 0.0, 1.0]),
+              dict(dim=4, endpoint=1, max_time=0.2, field=("none",), SNR=50, obs="none", exactSolution=[0.0, 0.0, 0.0, 0.0]),
+              dict(dim=5, endpoint=1, max_time=0.05, field=("step", 1), SNR=50, obs="none", exactSolution=None)]:
+        case_heat(ctx, cuqi, B1, B2, c, nid())
+    for c in [dict(dim=1, endpoint=1, field=("none",), SNR=100), dict(dim=2, endpoint=2.0, field=("none",), SNR=1), dict(dim=3, endpoint=0.5, field=("step", 1), SNR=1e4)]:
+        case_abel(ctx, cuqi, B1, B2, c, nid())
+    for dopt in (None, ("int", 0), ("float", 0.0), ("arr", [0.0]), ("float", -2.0), ("int", 1), ("arr", [3.5]), ("float", 1e-9)):
+        for nstd in (None, 1, 0.01, 4.0):
+            case_wang(ctx, cuqi, B1, B2, dict(noise_std=nstd, data=dopt, prior=("gauss-q" if nstd == 4.0 else "none")), nid())
+
     # ---- generated: Deconvolution1D
     for _ in range(70 * mult):
         dim = rng.choice(dims1)
         cfg = dict(dim=dim, psf=gen_psf1(rng, dim), bc=rng.choice(BC1 + ["Periodic", "ZERO", "Mirror", "Reflect", "Nearest"]), phantom=gen_phantom1(rng, dim),
-                   noise_type=rng.choice(["gaussian", "Gaussian", "scaledGaussian", "scaledgaussian", "GAUSSIAN"]), noise_std=rng.choice([0.01, 0.5, 0.125, 1.0, 0.05]),
+                   noise_type=rng.choice(["gaussian", "Gaussian", "scaledGaussian", "scaledgaussian", "GAUSSIAN"]), noise_std=rng.choice([0.01, 0.5, 0.125, 1.0, 0.05, 4.0]),
                    prior=make_prior(cuqi, rng, dim))
         case_deconv1d(ctx, cuqi, T, B1, B2, cfg, nid())
     for _ in range(14 * mult):
@@ -1152,7 +1230,7 @@ def run(ctx):
         ph = ("arr", [float(rng.randint(0, 5) + (1 if rng.random() < 0.7 else 0)) for _ in range(dim * dim)]) if rng.random() < 0.85 else ("name", rng.choice(["cookie", "satellite", "camera"]))
         k, pr = make_prior(cuqi, rng, dim * dim, geometry=Image2D((dim, dim)))
         cfg = dict(dim=dim, psf=gen_psf2(rng), bc=rng.choice(BC2 + ["Neumann", "Zero", "PERIODIC"]), phantom=ph,
-                   noise_type=rng.choice(["gaussian", "scaledGaussian", "Gaussian"]), noise_std=rng.choice([0.0036, 0.5, 0.125]), prior=(k, pr))
+                   noise_type=rng.choice(["gaussian", "scaledGaussian", "Gaussian"]), noise_std=rng.choice([0.0036, 0.5, 0.125, 1.0, 4.0]), prior=(k, pr))
         case_deconv2d(ctx, cuqi, T, B1, B2, cfg, nid())
 
     # ---- Poisson1D / Heat1D / Abel1D
@@ -1174,7 +1252,7 @@ def run(ctx):
         case_heat(ctx, cuqi, B1, B2, cfg, nid())
     for _ in range(16 * mult):
         dim = rng.choice([3, 4, 5, 6, 8, 12] + ([24, 32] if thorough else []))
-        cfg = dict(dim=dim, endpoint=rng.choice([1, 1, 2.0, 0.5]), field=gen_field(rng, dim), SNR=rng.choice([100, 20, 5]))
+        cfg = dict(dim=dim, endpoint=rng.choice([1, 1, 2.0, 0.5]), field=gen_field(rng, dim), SNR=rng.choice([100, 20, 5, 1]))
         case_abel(ctx, cuqi, B1, B2, cfg, nid())
     # ---- WangCubic
     for _ in range(12 * mult):
